@@ -110,3 +110,16 @@ package resolver
 //@   prop C11
 //@   ensures array-skips-undefined-elements: target.kind == pjArray ==> result1 != pjStatusUndefinedNoConditionsMatch
 //@   loop 3 invariant lastException != pjStatusUndefinedNoConditionsMatch
+
+// C06 (tsconfig "extends", the resolver-level options): same per-option merge as config.TSConfig.ApplyExtendedConfig.
+// "strict" and "alwaysStrict" are two different options (alwaysStrict defaults to strict only when it is absent from the
+// whole chain), so an inherited alwaysStrict must not be stored as strict or vice versa.
+//@ func (*TSConfigJSON).applyExtendedConfig
+//@   arith int
+//@   prop C06
+//@   opt scenario tsconfig_extends_alwaysstrict
+//@   requires derived != nil
+//@   ensures strict: derived.TSStrict == (base.TSStrict != nil ? base.TSStrict : old(derived.TSStrict))
+//@   ensures alwaysStrict: derived.TSAlwaysStrict == (base.TSAlwaysStrict != nil ? base.TSAlwaysStrict : old(derived.TSAlwaysStrict))
+//@   ensures baseURL: derived.BaseURL == (base.BaseURL != nil ? base.BaseURL : old(derived.BaseURL))
+//@   ensures paths: derived.Paths == (base.Paths != nil ? base.Paths : old(derived.Paths))
